@@ -886,3 +886,11 @@ func RetErrIsNil(r *ssa.Return) bool {
 	}
 	return IsNilConst(RetVal(r, len(r.Results)-1))
 }
+
+// ConstIntOf converts a constant.Value to int64.
+func ConstIntOf(v constant.Value) (int64, bool) {
+	if v == nil || v.Kind() != constant.Int {
+		return 0, false
+	}
+	return constant.Int64Val(v)
+}
